@@ -12,7 +12,7 @@ T_MyNicks == {"mx", "Me"}
 \* and of the configured nick "me", also borne by another user
 N_Users == {"u1"}
 N_Chans == {"#x"}
-N_Pool == {"a", "m", "mex"}
+N_Pool == {"a", "A", "m", "mex"}   \* ("a" and "A": a rename that changes only the letter case)
 N_MyNicks == {"m", "mex", "mx"}
 Yes == TRUE
 \* the full privilege alphabet (simulation)
